@@ -64,7 +64,7 @@ theorem tie_set_vt (s : List Char) (n fuel : Nat) (hn : 1 ≤ n) (hf : 2 * n + 2
   | ok vals =>
     have hlen : vals.tail.length = vals.dropLast.length := by simp
     simp only [R_map_ok, bnd_ok, npArray_list_nats, pySliceV_arr_from_one, pySliceV_arr_to_neg_one,
-      ← List.map_tail, ← List.map_dropLast, npSub_nats_nats hlen, npCmp_pyGt_ints_int, npWhere_arr,
+      ← List.map_tail, ← List.map_dropLast, npSub_nats_nats hlen, npCmp_pyGt_ints_int, npWhere_arr_map_bool,
       pyIndex_tup_cons_zero]
     have hasc := npSum_ascBools vals 0
     simp only [ascBools] at hasc
